@@ -257,19 +257,19 @@ type failRec struct {
 }
 
 type rec struct {
-	Kind     string         `json:"kind"`
-	Trees    int64          `json:"trees,omitempty"`
-	Cases    int64          `json:"cases,omitempty"`
-	Evals    int64          `json:"evals,omitempty"`
-	Scripts  int64          `json:"scripts,omitempty"`
-	Stake    int64          `json:"stake,omitempty"`
-	Explained int64         `json:"explained,omitempty"`
-	Fail     *failRec       `json:"fail,omitempty"`
-	Outcomes map[string]int `json:"outcomes,omitempty"`
-	Edges    map[string]int `json:"edges,omitempty"`
-	Disc     map[string]int `json:"disc,omitempty"`
-	Alt      map[string]int `json:"alt,omitempty"`
-	Sample   any            `json:"sample,omitempty"`
+	Kind      string         `json:"kind"`
+	Trees     int64          `json:"trees,omitempty"`
+	Cases     int64          `json:"cases,omitempty"`
+	Evals     int64          `json:"evals,omitempty"`
+	Scripts   int64          `json:"scripts,omitempty"`
+	Stake     int64          `json:"stake,omitempty"`
+	Explained int64          `json:"explained,omitempty"`
+	Fail      *failRec       `json:"fail,omitempty"`
+	Outcomes  map[string]int `json:"outcomes,omitempty"`
+	Edges     map[string]int `json:"edges,omitempty"`
+	Disc      map[string]int `json:"disc,omitempty"`
+	Alt       map[string]int `json:"alt,omitempty"`
+	Sample    any            `json:"sample,omitempty"`
 }
 
 type emitter interface{ Emit(v any) }
@@ -281,7 +281,6 @@ func (l *localW) Emit(v any) {
 		l.fails = append(l.fails, *r.Fail)
 	}
 }
-
 
 func newBatch() *exprsem.Batch {
 	return &exprsem.Batch{Prelude: "function __id($x) { return $x; }", NewEnv: func() *exprsem.Env { return exprsem.NewEnv(nil) }, Size: 240}
@@ -297,20 +296,20 @@ type pending struct {
 }
 
 type worker struct {
-	arg    shardArg
-	em     emitter
-	batch  *exprsem.Batch
-	ref    *refEnv
-	out    map[string]int
-	edges  map[string]int
-	trees  int64
-	cases  int64
-	evals  int64
-	stake  int64
-	sample bool
+	arg       shardArg
+	em        emitter
+	batch     *exprsem.Batch
+	ref       *refEnv
+	out       map[string]int
+	edges     map[string]int
+	trees     int64
+	cases     int64
+	evals     int64
+	stake     int64
+	sample    bool
 	explained int64
-	disc   map[string]int
-	alt    map[string]int
+	disc      map[string]int
+	alt       map[string]int
 }
 
 func jobID(ci int, p string) string { return fmt.Sprintf("%d|%s", ci, p) }
